@@ -55,6 +55,7 @@ pub struct Out {
     pub kcases: Vec<String>,
     pub splitcases: Vec<String>,
     pub findcases: Vec<String>,
+    pub descs: Vec<(u64, String)>,
 }
 impl Out {
     pub fn count(&mut self, k: &str) { *self.counters.entry(k.to_string()).or_insert(0) += 1; }
@@ -429,6 +430,7 @@ pub fn run_case(w: &World, case: &Case, seed: u64, out: &mut Out) {
     let s = case.shape.render(&input_keys);
     out.count("cases");
     out.h("stream", case.stream);
+    out.descs.push((case.id, s.clone()));
     let xprv = case.stream == "xprv";
     let parsed = catch_unwind(AssertUnwindSafe(|| {
         if xprv {
